@@ -54,7 +54,9 @@ static void use_item(const jwk_item_t *it) {
 //        6 load_fromfp(existing) 7 load_fromfile(existing); 4/5 alternate between jwks_create_from* and jwks_load_from*(NULL)
 static void load_with_oracle_inner(int entry, int prov, const std::string &bytes);
 // guard = the application has installed its own allocator: nothing it did not hand out may reach its free hook
-static void load_with_oracle(int entry, int prov, const std::string &bytes, bool guard = false) {
+static bool G_POLLUTE = false;
+static void load_with_oracle(int entry, int prov, const std::string &bytes, bool guard = false, bool pollute = false) {
+  G_POLLUTE = pollute;
   jwt_set_alloc(NULL, NULL);
   if (guard) { guard_foreign_frees() = 0; jwt_set_alloc(guard_malloc, guard_free); fs().cls("with-application-allocator"); }
   load_with_oracle_inner(entry, prov, bytes);   // every jansson object of the oracle dies inside
@@ -62,13 +64,15 @@ static void load_with_oracle(int entry, int prov, const std::string &bytes, bool
 }
 static void load_with_oracle_inner(int entry, int prov, const std::string &bytes) {
   FStats &st = fs();
-  set_provider(prov); set_now(1700000000);
+  set_provider(prov, G_POLLUTE); set_now(1700000000); if (G_POLLUTE) st.cls("openssl-error-queue-not-empty");
   st.evaluations++;
   entry %= 8;
   std::string DOC = bytes;
   if (entry == 2 || entry == 3) DOC = bytes.substr(0, bytes.find('\0'));
   jwk_set_t *set = nullptr; size_t before = 0;
-  if (entry == 1 || entry == 3 || entry == 6 || entry == 7) { set = jwks_create(GOOD_OCT.c_str()); before = jwks_item_count(set); }
+  // the existing set holds one good key; every second time it also carries the error of an earlier load of text that was not JSON (never cleared)
+  bool stale_error = false;
+  if (entry == 1 || entry == 3 || entry == 6 || entry == 7) { set = jwks_create(GOOD_OCT.c_str()); if (DOC.size() & 2) { jwks_load(set, "{\"keys\": [ nope"); stale_error = jwks_error(set) != 0; st.cls("existing-set-with-stale-error"); } before = jwks_item_count(set); }
   bool via_create = DOC.size() & 1;
   jwk_set_t *r = nullptr;
   switch (entry) {
@@ -97,7 +101,7 @@ static void load_with_oracle_inner(int entry, int prov, const std::string &bytes
     if (!jwks_error_msg(r) || !jwks_error_msg(r)[0]) oracle_fail("set-error-without-message", d);
   } else if (libflags) {
     st.cls("json");
-    if (jwks_error(r)) oracle_fail("json-but-set-error", d);
+    if (jwks_error(r) && !stale_error) oracle_fail("json-but-set-error", d);
     json_t *keys = json_object_get(libflags.p, "keys");
     size_t want = (size_t)-1;
     if (!keys) want = 1; else if (json_is_array(keys)) want = json_array_size(keys);
